@@ -104,6 +104,22 @@ def run_case(case):
             exp = np.asarray(getattr(ref, m)(arg), dtype=float)
             if not np.allclose(got, exp, rtol=1e-14, atol=0):
                 bad("evaluation", {"method": m, "got": got, "expected": exp, "fixed": fixed}, stage="evaluate")
+        # the fixed value is also used when another parameter is passed explicitly to the call
+        for fn in free:
+            alt = FIXVAL[role[fn]][1]
+            if fam == "LogNormalNormFitDistribution":
+                continue    # both-or-none rule of this class
+            ref2 = zoo.make(fam, dict(plain, **{fn: alt}))
+            for m, arg in (("cdf", xs), ("pdf", xs), ("icdf", np.array([0.1, 0.5, 0.9]))):
+                count["checks"] += 1
+                try:
+                    got = np.asarray(getattr(inst, m)(arg, **{fn: alt}), dtype=float)
+                except Exception as e:
+                    bad("evaluation", {"method": m, "explicit": fn, "type": type(e).__name__, "msg": str(e)[:120]}, stage="evaluate")
+                    continue
+                exp = np.asarray(getattr(ref2, m)(arg), dtype=float)
+                if not np.allclose(got, exp, rtol=1e-14, atol=0, equal_nan=True):
+                    bad("evaluation", {"method": m, "explicit": fn, "got": got, "expected": exp, "fixed": fixed}, stage="evaluate")
         s1 = np.asarray(inst.draw_sample(5, random_state=3))
         s2 = np.asarray(ref.draw_sample(5, random_state=3))
         if not np.allclose(s1, s2, rtol=1e-14, atol=0):
